@@ -408,6 +408,20 @@ class NdArr:
                 return None
         return base
 
+    def as_permuted_whole(self):
+        """(base, order): every element of one symbolic array exactly once, in the order given (order[i] is the index, in the
+        layout of the base, of the element at position i); None otherwise."""
+        if not self.elems or not all(isinstance(e, Elem) for e in self.elems):
+            return None
+        base = self.elems[0].base
+        n = base.members.get('shape')
+        if n is None or _prod(n) != len(self.elems) or any(e.base is not base for e in self.elems):
+            return None
+        order = [e.idx for e in self.elems]
+        if sorted(order) != list(range(len(order))):
+            return None
+        return base, order
+
     def all_concrete(self) -> bool:
         return all(is_concrete(e) for e in self.elems)
 
